@@ -631,8 +631,9 @@ def check_crossbuild(prop, tier, replay):
     t0 = time.time()
     base = os.path.join(OUT, prop); shutil.rmtree(base, ignore_errors=True); os.makedirs(base)
     corp = {}; states = trans = 0
-    for eng in C18_CORPUS:
-        corp[eng], a, b = gen_corpus(prop, eng, tier); states += a; trans += b
+    with ThreadPoolExecutor(max_workers=4) as ex:
+        for eng, (path, a, b) in zip(C18_CORPUS, ex.map(lambda e: gen_corpus(prop, e, tier), C18_CORPUS)):
+            corp[eng] = path; states += a; trans += b
     progs = [C18_CORPUS[e][0] for e in C18_CORPUS]
     log("C18: corpus generated after %.0fs" % (time.time() - t0))
 
